@@ -122,6 +122,7 @@ specs["C06"] = {"runs": [
     run(CMD + "utils:Harness_walk_period", T, {"R": 3}, cover=["walked"]),
     run(CMD + "summary:Harness_summary_day", QT, {}, cover=["ran"], note="concrete supplement: the summary command's real Action (real time.Date/Year/Month/Day) for 6 dates around month/year ends x {today, yesterday, explicit} x time.Local in {UTC, -5h, +13h, -10h}: exactly the headings of that calendar date"),
     run("cmd/hranoprovod-cli:Harness_app_period", Q, {"R": 2}, cover=["ran"], note="whole application: 10 period-aware command variants x period given globally / on the sub-command / on both (sub-command wins) x {begin, end} present or not x symbolic dates: output = output on the log with the other days deleted and no period"),
+    run("cmd/hranoprovod-cli:Harness_app_period", Q, {"R": 3, "command": 5}, cover=["ran"], note="three days (a selected day after a rejected day after a selected day) for `print`"),
     run("cmd/hranoprovod-cli:Harness_app_period", T, {"R": 3}, cover=["ran"]),
     run("cmd/hranoprovod-cli:Harness_app_stats_today", QT, {}, owned=["today:", "stats-ok"], cover=["ran"], note="--today independent of the process time zone (explored: UTC, UTC-5, UTC+13)"),
     run("cmd/hranoprovod-cli:Harness_app_keywords", QT, {}, cover=["ran"], note="whole application: --begin/--end = today, yesterday, last7, last30 (globally or on the sub-command) against --today minus 0/1/7/30 days, symbolic dates"),
@@ -190,6 +191,7 @@ specs["C10"] = {"runs": [
     run(CMD + "utils:Harness_walk_flaky", QT, {}, cover=["truncated", "complete"], note="WalkNodesInStream with and without a period over a reader failing at every offset"),
     run("cmd/hranoprovod-cli:Harness_main_exit_status", QT, {}, owned=["unreadable-input-is-nonzero-exit"], cover=["ran"], note="the program's own main(): files that are directories give a non-zero exit status"),
     run("cmd/hranoprovod-cli:Harness_app_bad_input", QT, {}, owned=["unreadable-"], cover=["ran"], note="whole application: each of 15 file-reading command variants with the log or the book being a directory (open succeeds, every read fails)"),
+    run(CMD + "balance:Harness_failing_input", QT, {}, cover=["truncated", "complete"], note="16 command functions (incl. register/print with an end date, summary of a day that later days follow, on a log that is not in date order) reading the log or the book from a reader that fails at a symbolic offset"),
     run("parser:Harness_parse_long_line", QT, {}, cover=["long"], max_steps=60000000, note="a 70 000-byte line: the real bufio.ErrTooLong path, executed concretely"),
  ], "assumptions": ["the OS is represented as `Read returns (n, err)`: EISDIR, permissions etc. are a non-EOF error from Read"],
  "outside_claim": ["os.Open failures (reported by ParseFileCallback, not subject here)"], "stubs": [REALSTD]}
@@ -199,6 +201,8 @@ specs["C12"] = {"runs": [
     run(CMD + "balance:Harness_compose_period", Q, {"E": 2}, "real", cover=["composed"]),
     run(CMD + "balance:Harness_compose_stream", QT, {}, "fp", cover=["composed"], note="through the real parser: log1 ++ log2 as text, symbolic dates, empty day blocks"),
     run("cmd/hranoprovod-cli:Harness_app_compose", QT, {}, "fp", cover=["composed"], note="whole application: 7 per-day command variants (default and left-aligned templates rendered, old reporter, csv log, print, single food, single element) on log1 ++ log2 vs log1 and log2: day blocks with symbolic dates (any order, same date), notes, an empty day, with or without --begin/--end"),
+    run("cmd/hranoprovod-cli:Harness_app_period", Q, {"R": 3, "command": 8}, cover=["ran"], note="a period report (`report quantity`) over three days in any order = the report of the selected days: days are independent"),
+    run("cmd/hranoprovod-cli:Harness_app_twice", QT, {}, "real", "repo", owned=["same-output", "same-error-status"], cover=["ran-twice"], note="what is shown for a day does not depend on the visiting order of maps (names differing only in case, a day of 36 lines)"),
     run(CMD + "balance:Harness_compose_per_day", T, {"E": 2}, "real", cover=["composed"]),
     run(CMD + "balance:Harness_compose_period", T, {"E": 2, "bookshapes": 4}, "real", cover=["composed"]),
  ], "assumptions": [REAL, DATA, "two day blocks (same or different dates); longer histories follow by induction on the same two-block step, since reporters carry state only through the fields exercised here"],
@@ -209,6 +213,9 @@ specs["C13"] = {"runs": [
     run(CMD + "csv:Harness_csv_database", Q, {"n": 3, "m": 2}, "fp", "all", cover=["exported"]),
     run("cmd/hranoprovod-cli:Harness_app_pipeline", QT, {'command': 3}, "real", cover=["ran"], note='whole application, `csv log`: one row per (day, distinct food), ISO date, merged quantity'),
     run("cmd/hranoprovod-cli:Harness_app_pipeline", QT, {'command': 4}, "real", cover=["ran"], note='whole application, `csv database-resolved`: one row per (recipe, resolved element) sorted, nested recipes and repeated ingredients'),
+    run(CMD + "balance:Harness_failing_output", QT, {"command": 8}, owned=["lost-output-is-error"], cover=["ran"], note="lossless or an error: `csv log` with a sink failing from its 1st/2nd/3rd write"),
+    run(CMD + "balance:Harness_failing_output", QT, {"command": 9}, owned=["lost-output-is-error"], cover=["ran"], note="`csv database`"),
+    run(CMD + "balance:Harness_failing_output", QT, {"command": 10}, owned=["lost-output-is-error"], cover=["ran"], note="`csv database-resolved`"),
     run(CMD + "csv:Harness_csv_log", T, {"n": 4, "m": 2}, cover=["exported"]),
     run(CMD + "csv:Harness_csv_database", T, {"n": 4, "m": 2}, "fp", "all", cover=["exported"]),
  ], "assumptions": [PF, "names: first/last byte letter, digit or non-ASCII; inner bytes anything except CR/LF (commas, quotes, spaces included)"],
